@@ -85,7 +85,7 @@ SmokeOps == {O("ctor"), O("dtor"), O("update")} \cup {Op("ito", d, 0, 0) : d \in
 SmokeActs == {A("T", d, 0, 0) : d \in States} \cup {A("X", 0, 0, 0), A("S", NONE, 0, 0)}
 
 \* requests and guards: every request source, every guard decision over successive rounds
-GuardOpsQ == {O("ctor"), O("dtor"), O("enter"), O("exit"), O("update")} \cup {Op("ito", d, 0, 0) : d \in States}
+GuardOpsQ == {O("ctor"), O("dtor"), O("enter"), O("exit"), O("update"), Op("query", 1, 0, 0), Op("react", 1, 0, 0)} \cup {Op("ito", d, 0, 0) : d \in States}
 TinyOps == {O("ctor"), O("dtor"), O("update"), Op("ito", 1, 0, 0)}
 TourOps == {O("ctor"), O("dtor"), O("update"), Op("ito", 1, 0, 0), Op("to", 0, 0, 0)}
 TourActs == {A("T", 0, 0, 0), A("T", 1, 0, 0), A("X", 0, 0, 0)}
@@ -104,6 +104,11 @@ PlanPoints == {<<M_UPDATE, ANY>>, <<M_POST_UPDATE, NONE>>, <<M_ENTRY_GUARD, ANY>
 PlanOpsQ == {O("ctor"), O("update")} \cup {Op("pc", o, d, 0) : o \in States, d \in States} \cup {Op("succeed", 0, 0, 0), Op("fail", 1, 0, 0), Op("ito", 1, 0, 0)}
 PlanActsQ == {A("S", NONE, 0, 0), A("F", NONE, 0, 0), A("X", 0, 0, 0)}
 PlanPointsQ == {<<M_UPDATE, ANY>>, <<M_ENTRY_GUARD, ANY>>}
+
+\* plans across activations of a manual machine (what survives exit() / enter())
+PlanManOps == {O("ctor"), O("enter"), O("exit"), O("update"), Op("pc", 0, 1, 0), Op("pc", 1, 1, 0), Op("succeed", 0, 0, 0), Op("fail", 0, 0, 0), Op("ito", 1, 0, 0), Op("to", 1, 0, 0)}
+PlanManActs == {A("S", NONE, 0, 0), A("F", NONE, 0, 0), A("PC", 0, 1, 0)}
+PlanManPoints == {<<M_UPDATE, ANY>>, <<M_ENTER, ANY>>}
 
 \* manual activation, serialization, replay
 SerialOps == {O("ctor"), O("dtor"), O("enter"), O("exit"), O("save"), O("update"), Op("rt", NONE, 0, 0)}
@@ -138,7 +143,7 @@ Inj1 == [i \in 1 .. (N + 1) |-> IF i = 1 THEN 1 ELSE IF i = 3 THEN 2 ELSE 0]
 \* logging: attach / detach, sparse classes
 LogOps == {O("ctor"), Op("ctor", 0, 0, 1), O("dtor"), O("update"), Op("react", 1, 0, 0), Op("query", 1, 0, 0), Op("attach", 0, 0, 0), Op("attach", 1, 0, 0)}
           \cup {Op("ito", d, 0, 0) : d \in States} \cup {Op("pc", 0, 1, 0), Op("succeed", 0, 0, 0), Op("fail", 0, 0, 0)}
-LogActs == {A("T", 1, 0, 0), A("X", 0, 0, 0), A("S", NONE, 0, 0), A("F", NONE, 0, 0)}
+LogActs == {A("T", 1, 0, 0), A("X", 0, 0, 0), A("S", NONE, 0, 0), A("F", NONE, 0, 0), A("F", 1, 0, 0), A("S", 0, 0, 0)}
 LogPoints == {<<M_UPDATE, ANY>>, <<M_ENTRY_GUARD, ANY>>, <<M_REACT, ANY>>}
 SparseDef == [i \in 1 .. (N + 1) |-> IF i = 1 THEN 18450 ELSE IF i = 2 THEN 32766 ELSE IF i = 3 THEN 2084 ELSE 0]
 Inj2 == [i \in 1 .. (N + 1) |-> IF i = 1 THEN 1 ELSE IF i = 2 THEN 2 ELSE IF i = 3 THEN 1 ELSE 0]
